@@ -283,7 +283,12 @@ impl crate::CascFormat for PatchArchive {
     fn build(&self) -> Result<Vec<u8>, Box<dyn std::error::Error>> {
         let mut builder = PatchArchiveBuilder::new()
             .version(self.header.version)
-            .block_size_bits(self.header.block_size_bits);
+            .block_size_bits(self.header.block_size_bits)
+            .key_sizes(
+                self.header.file_key_size,
+                self.header.old_key_size,
+                self.header.patch_key_size,
+            );
 
         if let Some(ref info) = self.encoding_info {
             builder = builder.encoding_info(info.clone());
@@ -324,6 +329,31 @@ mod tests {
         assert_eq!(entry.decoded_size, 1000);
         assert_eq!(entry.patches[0].source_ekey, [0x01; 16]);
         assert_eq!(entry.patches[0].patch_size, 200);
+    }
+
+    #[test]
+    fn test_rebuild_keeps_key_sizes() {
+        // 9-byte source keys: rebuilding used to widen every key to 16 bytes,
+        // turning the key into another one (zero-padded) for a reader that
+        // compares key_size bytes
+        let mut builder = PatchArchiveBuilder::new().key_sizes(16, 9, 12);
+        let mut source = [0u8; 16];
+        source[..9].copy_from_slice(&[0xBB; 9]);
+        let mut patch = [0u8; 16];
+        patch[..12].copy_from_slice(&[0xCC; 12]);
+        builder.add_file_entry([0xAA; 16], 1000, vec![(source, 500, patch, 200, 0)]);
+        let data = builder.build().expect("build should succeed");
+
+        let parsed = PatchArchive::parse(&data).expect("parse should succeed");
+        assert_eq!(parsed.header.old_key_size, 9);
+        assert_eq!(parsed.header.patch_key_size, 12);
+        assert_eq!(
+            parsed.blocks[0].file_entries[0].patches[0].source_ekey,
+            source
+        );
+
+        let rebuilt = parsed.build().expect("build should succeed");
+        assert_eq!(rebuilt, data);
     }
 
     #[test]
